@@ -89,6 +89,9 @@ ATOMS = [
     {'name': 'range', 'cxx': "range< 'a', 'f' >", 'cond': "HAVE(1) && B(S) >= 'a' && B(S) <= 'f'", 'len': '1'},
     {'name': 'string2', 'cxx': "string< 'a', 'b' >", 'cond': "HAVE(2) && B(S) == 'a' && B(S + 1) == 'b'", 'len': '2'},
     {'name': 'string3', 'cxx': "string< 'a', '\\n', 'b' >", 'cond': "HAVE(3) && B(S) == 'a' && B(S + 1) == '\\n' && B(S + 2) == 'b'", 'len': '3'},
+    {'name': 'string_nul', 'cxx': "string< 'a', '\\0', 'b' >", 'cond': "HAVE(3) && B(S) == 'a' && B(S + 1) == 0 && B(S + 2) == 'b'", 'len': '3', 'alphabet': 'ab\\000c'},
+    {'name': 'one0', 'cxx': 'one<>', 'cond': '0', 'len': '0', 'can_match': False},
+    {'name': 'not_one0', 'cxx': 'not_one<>', 'cond': 'HAVE(1)', 'len': '1'},
     {'name': 'string0', 'cxx': 'string<>', 'cond': '1', 'len': '0', 'can_fail': False},
     {'name': 'eof', 'cxx': 'eof', 'cond': 'S == lf_n', 'len': '0'},
     {'name': 'success', 'cxx': 'success', 'cond': '1', 'len': '0', 'can_fail': False},
